@@ -128,6 +128,15 @@ CHECKS = {
               "bounds computed per case; well-conditioned configurations are also compared end to end."),
         note="Trusted: vp/ref/ds_step.py (float64, no import of the repo). Tolerances stated in evidence.assumptions; steps whose grafting norm under/overflows float32 and roots without a positive-definite reference are counted and skipped.",
         design="DESIGN.md section 3, C02"),
+    "C08": dict(
+        category="exploration",
+        technique="property-based differential (metamorphic) testing on the real code: a blocked tensor vs its blocks as separate parameters, and a parameter alone vs with generated companion parameters, over generated block layouts with independent per-block gradient scales",
+        text=("Generated-input search over block layouts (1-2 blocked axes, ragged last block), per-block scales spanning up to 1e12, "
+              "companions that change the global padding size, options and histories, for Distributed Shampoo, tearfree shampoo.apply and "
+              "the full tearfree chain (~400 layouts quick): with grafting NONE block slices equal the separate parameters' updates "
+              "(2e-5), with a grafting type they are positively collinear; a parameter's update and state are unchanged by companions."),
+        note="Trusted: nothing beyond the real code run twice; float64 roots under x64 keep the differential noise at 1e-7.",
+        design="DESIGN.md section 3, C08"),
 }
 
 NOT_YET = {}
